@@ -290,10 +290,143 @@ func TestReplay(t *testing.T) {{
     return ("CONFIRMED on the real code: " + mm.group(1)) if mm else None
 
 
+def _sweep_note(tag):
+    return " (input from a sweep of small arguments; the model's own input did not fail)" if tag == "sweep" else ""
+
+
+def _run_common(src):
+    out = run_go("internal/common", src, "TestReplay")
+    mm = re.search(r"REPLAY-MISMATCH (\w+) (.*)", out)
+    return ("CONFIRMED on the real code" + _sweep_note(mm.group(1)) + ": " + mm.group(2)) if mm else None
+
+
+def crt(query, ob):
+    v = bigvals(query, ["a", "pa", "b", "pb"])
+    if not v or None in v or any(abs(x).bit_length() > 8192 for x in v):
+        v = [2, 3, 3, 5]
+    a, pa, b, pb = v
+    src = f"""package common
+import ("testing"; gobig "math/big"; "github.com/privacybydesign/gabi/big")
+func TestReplay(t *testing.T) {{
+	bi := func(s string) *big.Int {{ x, _ := new(big.Int).SetString(s, 10); return x }}
+	try := func(tag string, a, pa, b, pb *big.Int) bool {{
+		if pa.Sign() <= 0 || pb.Sign() <= 0 || new(gobig.Int).GCD(nil, nil, pa.Go(), pb.Go()).Cmp(gobig.NewInt(1)) != 0 {{ return false }}
+		r := Crt(new(big.Int).Set(a), new(big.Int).Set(pa), new(big.Int).Set(b), new(big.Int).Set(pb))
+		n := new(gobig.Int).Mul(pa.Go(), pb.Go())
+		da := new(gobig.Int).Mod(new(gobig.Int).Sub(r.Go(), a.Go()), pa.Go())
+		db := new(gobig.Int).Mod(new(gobig.Int).Sub(r.Go(), b.Go()), pb.Go())
+		if r.Sign() < 0 || r.Go().Cmp(n) >= 0 || da.Sign() != 0 || db.Sign() != 0 {{
+			t.Errorf("REPLAY-MISMATCH %s Crt(%v, %v, %v, %v) = %v is not the residue in [0, pa*pb) congruent to a mod pa and b mod pb", tag, a, pa, b, pb, r)
+			return true
+		}}
+		return false
+	}}
+	if try("model", bi("{a}"), bi("{pa}"), bi("{b}"), bi("{pb}")) {{ return }}
+	for pa := int64(1); pa < 12; pa++ {{ for pb := int64(1); pb < 12; pb++ {{ for a := int64(-3); a < 12; a++ {{ for b := int64(-3); b < 12; b++ {{
+		if try("sweep", big.NewInt(a), big.NewInt(pa), big.NewInt(b), big.NewInt(pb)) {{ return }}
+	}} }} }} }}
+}}
+"""
+    return _run_common(src)
+
+
+def legendre(query, ob):
+    v = bigvals(query, ["a", "p"])
+    if not v or None in v or any(abs(x).bit_length() > 8192 for x in v):
+        v = [2, 7]
+    a, p = v
+    src = f"""package common
+import ("testing"; gobig "math/big"; "github.com/privacybydesign/gabi/big")
+func TestReplay(t *testing.T) {{
+	bi := func(s string) *big.Int {{ x, _ := new(big.Int).SetString(s, 10); return x }}
+	try := func(tag string, a, p *big.Int) bool {{
+		if p.Sign() <= 0 || p.Bit(0) == 0 {{ return false }}
+		got := LegendreSymbol(new(big.Int).Set(a), new(big.Int).Set(p))
+		want := gobig.Jacobi(a.Go(), p.Go())
+		if got != want {{ t.Errorf("REPLAY-MISMATCH %s LegendreSymbol(%v, %v) = %d, the Jacobi symbol is %d", tag, a, p, got, want); return true }}
+		return false
+	}}
+	if try("model", bi("{a}"), bi("{p}")) {{ return }}
+	for p := int64(1); p < 200; p += 2 {{ for a := int64(-5); a < 210; a++ {{ if try("sweep", big.NewInt(a), big.NewInt(p)) {{ return }} }} }}
+}}
+"""
+    return _run_common(src)
+
+
+def prime_sqrt(query, ob):
+    v = bigvals(query, ["a", "pa"])
+    if not v or None in v or any(abs(x).bit_length() > 4096 for x in v):
+        v = [0, 7]
+    a, p = v
+    src = f"""package common
+import ("testing"; gobig "math/big"; "github.com/privacybydesign/gabi/big")
+func TestReplay(t *testing.T) {{
+	bi := func(s string) *big.Int {{ x, _ := new(big.Int).SetString(s, 10); return x }}
+	try := func(tag string, a, p *big.Int) bool {{
+		if p.Cmp(big.NewInt(3)) < 0 || !p.ProbablyPrime(30) {{ return false }}
+		r, ok := PrimeSqrt(new(big.Int).Set(a), new(big.Int).Set(p))
+		red := new(gobig.Int).Mod(a.Go(), p.Go())
+		want := red.Sign() == 0 || gobig.Jacobi(red, p.Go()) == 1
+		if ok != want {{ t.Errorf("REPLAY-MISMATCH %s PrimeSqrt(%v, %v) reports existence %v, expected %v", tag, a, p, ok, want); return true }}
+		if ok {{
+			sq := new(gobig.Int).Mod(new(gobig.Int).Mul(r.Go(), r.Go()), p.Go())
+			if sq.Cmp(red) != 0 {{ t.Errorf("REPLAY-MISMATCH %s PrimeSqrt(%v, %v) = %v, whose square is %v", tag, a, p, r, sq); return true }}
+		}}
+		return false
+	}}
+	if try("model", bi("{a}"), bi("{p}")) {{ return }}
+	for _, p := range []int64{{3, 5, 7, 13, 17, 41, 97}} {{ for a := -2 * p; a <= 2*p; a++ {{ if try("sweep", big.NewInt(a), big.NewInt(p)) {{ return }} }} }}
+}}
+"""
+    return _run_common(src)
+
+
+def fastmod_mod(query, ob):
+    bv = heap(query, "BV")
+    pm, px = sym(query, "p_m"), sym(query, "p_x")
+    p = x = None
+    if bv and pm and px:
+        v = get_values(query, [f"(select {bv} (sub_1 {pm}))", f"(select {bv} {px})"])
+        if v and None not in v:
+            p, x = v
+    if p is None or p <= 0 or p.bit_length() > 8192 or abs(x).bit_length() > 65536:
+        p, x = 251, 1000
+    src = f"""package common
+import ("testing"; "github.com/privacybydesign/gabi/big")
+func TestReplay(t *testing.T) {{
+	bi := func(s string) *big.Int {{ x, _ := new(big.Int).SetString(s, 10); return x }}
+	try := func(tag string, p, x *big.Int) bool {{
+		var m FastMod
+		m.Set(p)
+		want := new(big.Int).Mod(x, p)
+		got := m.Mod(new(big.Int), new(big.Int).Set(x))
+		alias := new(big.Int).Set(x)
+		m.Mod(alias, alias)
+		if got.Cmp(want) != 0 || alias.Cmp(want) != 0 {{ t.Errorf("REPLAY-MISMATCH %s FastMod(p=%v).Mod(%v) = %v (aliased: %v), big.Int.Mod gives %v", tag, p, x, got, alias, want); return true }}
+		return false
+	}}
+	if try("model", bi("{p}"), bi("{x}")) {{ return }}
+	for b := uint(1); b <= 70; b++ {{ for c := int64(1); c <= 5; c++ {{
+		p := new(big.Int).Sub(new(big.Int).Lsh(big.NewInt(1), b), big.NewInt(c))
+		if p.Sign() <= 0 || uint(p.BitLen()) != b {{ continue }}
+		sq := new(big.Int).Mul(p, p)
+		for _, x := range []*big.Int{{big.NewInt(0), big.NewInt(1), p, new(big.Int).Add(p, big.NewInt(1)), new(big.Int).Sub(p, big.NewInt(1)), new(big.Int).Lsh(p, 1), new(big.Int).Lsh(big.NewInt(1), b), sq, new(big.Int).Sub(sq, big.NewInt(1)), new(big.Int).Neg(sq), big.NewInt(-1), new(big.Int).Lsh(sq, 70)}} {{
+			if try("sweep", p, x) {{ return }}
+		}}
+	}} }}
+}}
+"""
+    return _run_common(src)
+
+
 HANDLERS = {
     "internal/common.ModInverse": mod_inverse,
     "internal/common.ModPow": mod_pow,
     "safeprime.ProbablySafePrime": probably_safe_prime,
+    "internal/common.Crt": crt,
+    "internal/common.LegendreSymbol": legendre,
+    "internal/common.PrimeSqrt": prime_sqrt,
+    "(*internal/common.FastMod).Mod": fastmod_mod,
     "(revocation.Hash).Equal": hash_equal,
     "(*rangeproof.Proof).ProvesStatement": proves_statement,
     "(rangeproof.StatementType).Sign": statement_sign,
